@@ -448,6 +448,12 @@ fn run_seqs<K: Kmer, V: Vmer>(c: &Case, seqs: &[(V, Exts, u32)], rec: &mut Rec) 
     if reference.as_ref().map(|r| r.table.iter().any(|x| x.2 == "65535")).unwrap_or(false) {
         rec.count("reach_saturated_count");
     }
+    if c.reads.iter().any(|r| r.seq.len() > 1 << 22) {
+        rec.count("reach_bucket_over_2p22_observations");
+    }
+    if c.reads.iter().any(|r| r.seq.len() > 65_536) && matches!(c.summ, Summ::CountSet(n) | Summ::Record(n) if n > 60_000) {
+        rec.count("reach_threshold_next_to_abundant_count");
+    }
     Ok(())
 }
 
@@ -566,6 +572,8 @@ impl Harness for C05 {
         let big = rng.chance(1, if tier == Tier::Thorough { 20_000 } else { 6_000 });
         // rare: more than 65536 reads (per-read indices wider than 16 bits)
         let many = !big && rng.chance(1, if tier == Tier::Thorough { 20_000 } else { 6_000 });
+        // rarer still: more than 2^22 observations of one k-mer, i.e. in one bucket of one pass
+        let huge = big && rng.chance(1, 3);
         let mut reads: Vec<Read> = Vec::new();
         if many {
             let n = 65_536 + rng.range(1, 400);
@@ -579,7 +587,7 @@ impl Harness for C05 {
             }
         } else if big {
             let b = rng.below(4) as u8;
-            let n = 65_536 + k + rng.below(40);
+            let n = if huge { (1 << 22) + k + rng.below(40) } else { 65_536 + k + rng.below(40) };
             // the run is followed by another base and a tail: the flank of the LAST observation of
             // the saturated k-mer (beyond the 65535th) is new
             let mut seq = vec![b; n];
@@ -620,9 +628,15 @@ impl Harness for C05 {
         let n_kmers: usize = reads.iter().map(|r| r.seq.len().saturating_sub(k - 1)).sum();
         let kmer_mem = n_kmers * size_of_pair(&ktype);
         let mut budgets = vec![budget_for(kmer_mem, 1, 4)];
-        let nb = if big || many { 2 } else { rng.range(1, 4) };
+        let nb = if huge {
+            1
+        } else if big || many {
+            2
+        } else {
+            rng.range(1, 4)
+        };
         for _ in 0..nb {
-            let slices = match rng.below(8) {
+            let slices = match if huge { 1 } else { rng.below(8) } {
                 0 => 2,
                 1 => rng.range(2, 5),
                 2 => rng.range(5, 40),
@@ -640,7 +654,14 @@ impl Harness for C05 {
             _ => rng.range(0, 6),
         };
         let summ = if big {
-            Summ::Count(rng.range(1, 3))
+            // thresholds next to the true number of observations of the abundant k-mer as well
+            let obs = reads[0].seq.iter().take_while(|b| **b == reads[0].seq[0]).count() + 1 - k;
+            let near = *rng.pick(&[obs - 1, obs, obs + 1, obs + 2, obs + 40, 1, 2]);
+            match rng.below(if huge { 2 } else { 3 }) {
+                0 => Summ::Count(rng.range(1, 3)),
+                1 => Summ::CountSet(near),
+                _ => Summ::Record(near),
+            }
         } else if many {
             if rng.chance(1, 2) {
                 Summ::CountSet(1)
